@@ -179,6 +179,12 @@ def scan_items(toks, features):
         i += 1
 
 
+# foreign macros the extractor looks through: name -> where the definition was read (assumption A-foreign-macro)
+TRANSPARENT_MACROS = {
+    "serde_if_integer128": "serde 1.0.229 src/integer128.rs: `($($tt:tt)*) => { $($tt)* }`",
+}
+
+
 class Macro:
     def __init__(self, name, arms):
         self.name = name
@@ -512,7 +518,15 @@ class Repo:
             last = idx == len(segs) - 1
             for kind, rest, it in matches(seg, scope):
                 (k, head, kw, bo, bc, st, attrs) = it
-                if kind == "invoke":
+                if kind == "invoke" and rest in TRANSPARENT_MACROS:
+                    # a foreign macro whose definition is the identity on its tokens: the items inside are the items
+                    n2 = notes + ["foreign macro %s! taken as the identity on its tokens (%s)" % (rest, TRANSPARENT_MACROS[rest])]
+                    if last:
+                        return Located([t.clone() for t in scope[bo + 1:bc]], "expansion", rel, scope[kw].line, scope[bc].line, n2, [])
+                    r = go(scope[bo + 1:bc], idx + 1, n2, rel)
+                    if r is not None:
+                        return r
+                elif kind == "invoke":
                     macro, mrel = self.find_macro(rest, [rel] + list(macro_files))
                     exp, binds, rename = expand(macro, scope[bo + 1:bc])
                     n2 = notes + ["macro %s!(%s) transcribed from %s%s" % (
